@@ -112,7 +112,10 @@ func bases() []scenario {
 func menu(sc scenario) []alphh.Step {
 	tx := alphh.TxID(1)
 	m := []alphh.Step{{Op: "evtick"}, {Op: "htick"}, {Op: "reobs", Tx: tx}, {Op: "height+", Height: 1}, {Op: "height+", Height: 300}, {Op: "clock", Sec: 16}, {Op: "clock", Sec: 3300},
-		{Op: "orphan", Block: 1}, {Op: "reinclude", Tx: tx, Block: 2, Height: 12}, {Op: "restart"}}
+		{Op: "orphan", Block: 1}, {Op: "reinclude", Tx: tx, Block: 2, Height: 12}, {Op: "restart"},
+		// the height the node reports falls BELOW the event's block (a stale height answer, a lagging node behind a
+		// load balancer, a reorg to a heavier but shorter fork)
+		{Op: "height", Height: 10}, {Op: "height", Height: 1}}
 	for _, ep := range []string{"count", "page", "height", "main-chain", "header", "tx-status", "events-by-tx", "multicall"} {
 		m = append(m, alphh.Step{Op: "fault", EP: ep})
 	}
